@@ -5,6 +5,7 @@ import (
 	"math"
 	"math/rand"
 	"os"
+	"runtime"
 	"sort"
 	"strings"
 	"sync"
@@ -21,7 +22,7 @@ import (
 // its own bus connection, perform N operations each on three nodes (a under G, b under a, c under a and G) while
 // a verifier calls admin.storeVerify; then the instance is stopped and its store file is opened again.
 // Every operation is stamped with a global logical clock at invocation and at response.
-// observation:  H=<event>;<event>..  ## final=<store dump> ## stop=<returned|hang> reopen=<ok|err>
+// observation:  H=<event>;<event>..  ## final=<store dump> ## stop=<returned|hang> reopen=<ok|err> stuck=<handlers left behind>
 //   W,<inv>,<resp>,<writer>,<node>,<n|e>,<key>,<time>,<ok|err>      acknowledged write of one point (type v / role)
 //   R,<inv>,<resp>,<reader>,<node>,<t0>/<t1>/<t2>/<trole>            read: time of the point of each identity, - if absent
 //   V,<inv>,<resp>,<ok|err>                                          admin.storeVerify
@@ -50,7 +51,76 @@ func c20Send(nc *nats.Conn, subject string, pts data.Points) error {
 	return nil
 }
 
+// c20Direct: "d<W>n<N>s<seed>": the store opened directly (no bus); W goroutines write node and edge points through the
+// store's own write functions while the store is closed in the middle: every write must RETURN (done, or refused with an
+// error because the store is closed) and the file must open again with consistent content.
+func c20Direct(c string) string {
+	var W, N int
+	var seed int64
+	if _, err := fmt.Sscanf(strings.Fields(c)[0], "d%dn%ds%d", &W, &N, &seed); err != nil {
+		panic("C20: bad case " + c)
+	}
+	db, f := newStore()
+	defer func() {
+		for _, suf := range []string{"", "-wal", "-shm"} {
+			os.Remove(f + suf)
+		}
+	}()
+	if err := db.VerifEdgePoints("a", "R", data.Points{{Type: data.PointTypeTombstone, Time: time.Unix(0, 10)}, {Type: data.PointTypeNodeType, Text: "device", Time: time.Unix(0, 11)}}); err != nil {
+		return "SETUP " + err.Error()
+	}
+	var done int64
+	var wg sync.WaitGroup
+	for w := 0; w < W; w++ {
+		wg.Add(1)
+		go func(w int) {
+			defer wg.Done()
+			r := rand.New(rand.NewSource(seed*31 + int64(w)))
+			for i := 0; i < N; i++ {
+				tm := time.Unix(0, int64(1000+i*8+w))
+				if r.Intn(2) == 0 {
+					_ = db.VerifNodePoints("a", data.Points{{Type: "v", Key: fmt.Sprint(r.Intn(3)), Value: float64(i), Time: tm}})
+				} else {
+					_ = db.VerifEdgePoints("a", "R", data.Points{{Type: "role", Value: float64(w), Time: tm}})
+				}
+				atomic.AddInt64(&done, 1)
+			}
+		}(w)
+	}
+	for atomic.LoadInt64(&done) < int64(W*N/3) {
+		time.Sleep(50 * time.Microsecond)
+	}
+	closed := make(chan struct{})
+	go func() { db.Close(); close(closed) }()
+	res := "returned"
+	fin := make(chan struct{})
+	go func() { wg.Wait(); close(fin) }()
+	select {
+	case <-fin:
+	case <-time.After(8 * time.Second):
+		res = "hang"
+	}
+	select {
+	case <-closed:
+	case <-time.After(8 * time.Second):
+		res += ",close-hang"
+	}
+	reopen := "ok"
+	if db2, err := store.NewSqliteDb(f, "R"); err != nil {
+		reopen = "err"
+	} else {
+		if err := db2.VerifVerifyHashes(false); err != nil {
+			reopen = "verify-err"
+		}
+		db2.Close()
+	}
+	return "D writers=" + res + " reopen=" + reopen
+}
+
 func c20Run(c string) string {
+	if strings.HasPrefix(c, "d") {
+		return c20Direct(c)
+	}
 	var W, R, N int
 	var seed int64
 	if _, err := fmt.Sscanf(strings.Fields(c)[0], "w%dr%dn%ds%d", &W, &R, &N, &seed); err != nil {
@@ -139,7 +209,9 @@ func c20Run(c string) string {
 				inv := tick()
 				var err error
 				kind := "n"
-				if r.Intn(8) == 0 {
+				// in the cases that stop the instance under load, half of the writes are edge-point writes: the two write
+				// handlers (p.* and p.*.*) are then both busy, and both queue for the single-writer lock, when the stop comes
+				if r.Intn(8) == 0 || (stopMid && r.Intn(2) == 0) {
 					kind = "e"
 					key = "0"
 					err = c20Send(nc, "p."+pl.id+"."+pl.parent, data.Points{{Type: "role", Value: float64(w), Time: time.Unix(0, tm)}})
@@ -299,10 +371,44 @@ func c20Run(c string) string {
 	})
 	h := strings.Join(events, ";")
 	mu.Unlock()
+	// "stopping the instance terminates it": no request handler of the store may be left behind (a handler that waits
+	// for ever on a lock is invisible from outside once the connections are gone)
+	stuck := c20StuckHandlers(3 * time.Second)
 	if stopMid {
-		return "H=" + h + " ## final=" + final + " ## stop=" + stopRes + " reopen=" + reopen + fmt.Sprintf(" stopAt=%d", atomic.LoadInt64(&stopAt))
+		return "H=" + h + " ## final=" + final + " ## stop=" + stopRes + " reopen=" + reopen + fmt.Sprintf(" stuck=%d stopAt=%d", stuck, atomic.LoadInt64(&stopAt))
 	}
-	return "H=" + h + " ## final=" + final + " ## stop=" + stopRes + " reopen=" + reopen
+	return "H=" + h + " ## final=" + final + " ## stop=" + stopRes + " reopen=" + reopen + fmt.Sprintf(" stuck=%d", stuck)
+}
+
+// c20StuckHandlers counts the goroutines that are still inside a request handler or a write of the store, once they
+// have had `grace` to finish; handlers left by earlier cases of this process are not counted again.
+var c20StuckSeen int
+
+func c20StuckHandlers(grace time.Duration) int {
+	count := func() int {
+		buf := make([]byte, 1<<24)
+		buf = buf[:runtime.Stack(buf, true)]
+		n := 0
+		for _, g := range strings.Split(string(buf), "\n\n") {
+			if strings.Contains(g, "simpleiot/store.(*Store).handle") || strings.Contains(g, "simpleiot/store.(*DbSqlite).nodePoints") ||
+				strings.Contains(g, "simpleiot/store.(*DbSqlite).edgePoints") {
+				n++
+			}
+		}
+		return n
+	}
+	deadline := time.Now().Add(grace)
+	n := count()
+	for n > c20StuckSeen && time.Now().Before(deadline) {
+		time.Sleep(20 * time.Millisecond)
+		n = count()
+	}
+	d := n - c20StuckSeen
+	if d < 0 {
+		d = 0
+	}
+	c20StuckSeen = n
+	return d
 }
 
 func srvStopKeep(b *busServer) { b.halt() }
@@ -315,6 +421,9 @@ func c20Gen(r *rand.Rand, n int, tier string) []string {
 		c := fmt.Sprintf("w%dr%dn%ds%d", 1+r.Intn(6), 1+r.Intn(5), 10+r.Intn(50), r.Intn(1000000))
 		if i%5 == 4 {
 			c += "x" // stopped in the middle of the load
+		}
+		if i%10 == 7 {
+			c = fmt.Sprintf("d%dn%ds%d", 2+r.Intn(5), 20+r.Intn(80), r.Intn(1000000)) // the store closed under direct writes
 		}
 		out = append(out, c)
 	}
